@@ -358,11 +358,9 @@ def valid_case(case):
     if any(n >= 0 for n in nums):
         if sorted(nums) != list(range(len(nums))) or not room_ok(case):
             return False
-        if case["lazy"]:
-            # strax's own senders never number explicitly; the lazy fetch gate (_can_fetch) assumes
-            # in-order numbers and blocks for good when a subscriber waits for a number below the lowest
-            # buffered one (model and implementation agree on that deadlock; see design_notes/C05.md)
-            return False
+        # (explicit numbers through the lazy fetch gate are inside the property since /repo ede7cda: the gate
+        #  now asks whether a subscriber waits for a BUFFERED number; before, it never opened when a
+        #  subscriber waited for a number below the lowest buffered one)
     if case["lazy"] and not any(case["drives"]):
         return False
     return len(case["drives"]) >= 1 and (case["cap"] is None or case["cap"] >= 1)
@@ -698,8 +696,16 @@ def build_tasks(ctx):
                     if room_ok(c):
                         add("cover", c)
                         break
-                if N <= 3:
-                    add("cover", mk_case(None, True, [True] * S, N, numbers=list(perm)))
+                if N <= 3 or S == 1:
+                    # through the lazy fetch gate: every driver mask for 2 subscribers, unbounded and the
+                    # smallest finite max_messages that fits
+                    for m in masks(S):
+                        add("cover", mk_case(None, True, m, N, numbers=list(perm)))
+                    for cap in (1, 2, 3, 4):
+                        c = mk_case(cap, True, [True] + [False] * (S - 1), N, numbers=list(perm))
+                        if room_ok(c):
+                            add("cover", c)
+                            break
     # outside the hypotheses: the verdicts (deadlock / InvalidMessageNumber + kill) must agree too
     add("cover", mk_case(None, True, [False], 2))
     add("cover", mk_case(None, True, [False, False], 1))
